@@ -580,7 +580,7 @@ Section RT.
   Proof.
     unfold plain_names. revert fis. induction fds as [|fd fds IH]; intros [|fi fis] L H; try discriminate; [constructor|].
     cbn [combine forallb] in H. apply andb_true_iff in H as [H1 H2]. constructor.
-    - unfold field_ann_ok in H1. cbn [fst snd] in H1. now apply andb_true_iff in H1 as [? _].
+    - unfold field_ann_ok in H1. cbn [fst snd] in H1. apply andb_true_iff in H1 as [H1 _]. now apply andb_true_iff in H1 as [? _].
     - apply IH; [cbn [length] in L; lia|exact H2].
   Qed.
 
@@ -590,7 +590,17 @@ Section RT.
     revert fis i. induction fds as [|fd0 fds IH]; intros [|fi0 fis] [|i] H Hfd Hfi Hb; try discriminate;
       cbn [combine forallb] in H; apply andb_true_iff in H as [H1 H2]; cbn [nth_error] in Hfd, Hfi.
     - injection Hfd as <-. injection Hfi as <-. unfold field_ann_ok in H1. cbn [fst snd] in H1.
-      apply andb_true_iff in H1 as [_ H1]. rewrite Hb in H1. now apply andb_true_iff in H1 as [_ ?].
+      apply andb_true_iff in H1 as [H1 _]. apply andb_true_iff in H1 as [_ H1]. rewrite Hb in H1. now apply andb_true_iff in H1 as [_ ?].
+    - eapply IH; eauto.
+  Qed.
+
+  Lemma ann_nat_args fds fis i fd : length fds = length fis -> forallb (field_ann_ok js) (combine fds fis) = true ->
+    nth_error fds i = Some fd -> is_nat_type js (f_ty fd) = true -> f_args fd = [].
+  Proof.
+    revert fis i. induction fds as [|fd0 fds IH]; intros [|fi0 fis] [|i] L H Hfd Hn; try discriminate;
+      cbn [combine forallb] in H; apply andb_true_iff in H as [H1 H2]; cbn [nth_error] in Hfd.
+    - injection Hfd as <-. unfold field_ann_ok in H1. cbn [fst snd] in H1.
+      apply andb_true_iff in H1 as [_ H1]. rewrite Hn in H1. destruct (f_args fd0); [reflexivity|discriminate].
     - eapply IH; eauto.
   Qed.
 
@@ -950,7 +960,8 @@ Section RT.
         rewrite forallb_forall in Hkind.
         assert (Hidx : In idx (seq 0 (length vars))).
         { apply in_seq. split; [lia|]. cbn. apply nth_error_Some. congruence. }
-        specialize (Hkind idx Hidx). rewrite Evt, Evn in Hkind.
+        specialize (Hkind idx Hidx). rewrite Evt, Evn in Hkind. apply andb_true_iff in Hkind as [Hkind _].
+        unfold tag_reads_as in Hkind.
         destruct (find_tag js tl2 vars vns (wname vn) 0) as [[[i' vt'] legacy]|] eqn:Eft; [|discriminate].
         apply andb_true_iff in Hkind as [Hk1 Hleg]. apply andb_true_iff in Hk1 as [Hk1 Hk2].
         apply Nat.eqb_eq in Hk1, Hk2. apply negb_true_iff in Hleg. subst i' vt' legacy.
